@@ -24,12 +24,13 @@
 (*        sequence, same next address, same registers / HI / LO / memory.  *)
 (* A rejected session is skipped up to the next begin.                     *)
 (***************************************************************************)
-EXTENDS Mips, Recover, TraceLib
+EXTENDS Mips, Ppc, Recover, TraceLib
 
 VARIABLES l, skip, P, stats
 vars == <<l, skip, P, stats>>
 
 Big(e) == e.arch # "mipsel"
+IsMips(e) == e.arch # "ppc"
 NW(p)  == Len(p.words)
 
 \* ---- shapes (a mutated trace must be rejected, not crash the evaluation) -------------------
@@ -38,7 +39,7 @@ IsVal(x)      == DOMAIN x = {"w", "v"} /\ x.w \in 0..4096 /\ DOMAIN x.v = 1..Len
                  /\ \A i \in 1..Len(x.v) : x.v[i] \in 0..255
 BeginShape(e) ==
   /\ {"arch", "base", "entry", "words", "manual", "alone", "lift"} \subseteq DOMAIN e
-  /\ e.arch \in {"mips", "mipsel"} /\ IsBytes(e.base, 4)
+  /\ e.arch \in {"mips", "mipsel", "ppc"} /\ IsBytes(e.base, 4)
   /\ Len(e.words) \in 1..400 /\ \A i \in 1..Len(e.words) : IsBytes(e.words[i], 4)
   /\ e.entry \in 0..(Len(e.words) - 1)
   /\ DOMAIN e.manual = 1..Len(e.manual)
@@ -56,28 +57,48 @@ FunShape(e) ==
   /\ \A i, j \in 1..Len(e.blocks) : i # j => e.blocks[i].i # e.blocks[j].i
   /\ DOMAIN e.edges = 1..Len(e.edges)
   /\ \A i \in 1..Len(e.edges) : DOMAIN e.edges[i] = {"h", "t", "c"}
-RunShape(e) ==
-  /\ {"n", "gpr", "hi", "lo", "win", "mem0", "out", "pcs", "post"} \subseteq DOMAIN e
+RunShape(p, e) ==
+  /\ {"n", "gpr", "win", "mem0", "out", "pcs", "post"} \subseteq DOMAIN e
   /\ DOMAIN e.gpr = 1..32 /\ \A i \in 1..32 : IsBytes(e.gpr[i], 4)
-  /\ IsBytes(e.hi, 4) /\ IsBytes(e.lo, 4) /\ IsBytes(e.win, 4)
+  /\ IsBytes(e.win, 4)
+  /\ IF IsMips(p) THEN /\ {"hi", "lo"} \subseteq DOMAIN e /\ IsBytes(e.hi, 4) /\ IsBytes(e.lo, 4)
+                        /\ {"hi", "lo"} \subseteq DOMAIN e.post /\ IsVal(e.post.hi) /\ IsVal(e.post.lo)
+     ELSE /\ {"lr", "ctr", "ca", "cr"} \subseteq DOMAIN e /\ IsBytes(e.lr, 4) /\ IsBytes(e.ctr, 4) /\ e.ca \in 0..1
+          /\ DOMAIN e.cr = 1..32 /\ \A i \in 1..32 : e.cr[i] \in 0..1
+          /\ {"lr", "ctr", "ca", "cr"} \subseteq DOMAIN e.post /\ IsVal(e.post.lr) /\ IsVal(e.post.ctr) /\ IsVal(e.post.ca)
+          /\ DOMAIN e.post.cr = 1..32 /\ \A i \in 1..32 : IsVal(e.post.cr[i])
   /\ Len(e.mem0) \in 8..4096 /\ IsBytes(e.mem0, Len(e.mem0))
   /\ DOMAIN e.pcs = 1..Len(e.pcs) /\ \A i \in 1..Len(e.pcs) : IsBytes(e.pcs[i], 8)
   /\ "k" \in DOMAIN e.out
   /\ (e.out.k \in {"limit", "exit"} => "npc" \in DOMAIN e.out /\ IsBytes(e.out.npc, 8))
   /\ (e.out.k = "exit" => "npcw" \in DOMAIN e.out)
-  /\ {"gpr", "hi", "lo", "mem1", "pages"} \subseteq DOMAIN e.post
+  /\ {"gpr", "mem1", "pages"} \subseteq DOMAIN e.post
   /\ DOMAIN e.post.gpr = 1..32 /\ \A i \in 1..32 : IsVal(e.post.gpr[i])
-  /\ IsVal(e.post.hi) /\ IsVal(e.post.lo)
   /\ DOMAIN e.post.mem1 = 1..Len(e.mem0)
   /\ DOMAIN e.post.pages = 1..Len(e.post.pages) /\ \A i \in 1..Len(e.post.pages) : IsBytes(e.post.pages[i], 8)
 
 \* ---- the program as the architecture sees it ------------------------------------------------
-WordAt(p, i)  == MWord(p.words[i + 1], Big(p))                       \* i = 0 .. NW - 1
+WordAt(p, i)  == IF IsMips(p) THEN MWord(p.words[i + 1], Big(p)) ELSE PWord(p.words[i + 1])   \* i = 0 .. NW - 1
 DecAt(p, i)   == MDecode(WordAt(p, i))
 AddrAt(p, i)  == Add(32, p.base, N32(4 * i))
 \* byte offset of a 32-bit address relative to the base; anything outside the code maps to a value >= 4 * NW
 OffOf(p, a)   == ToNatCap(Sub(32, a, p.base), 1000000)
+\* PPC: the lifter refuses conditional branches; b (jump), bl (call), bctr (indirect, manual edges); blr is
+\* left out while it is lifted as a nop (C02 finding, parts/C02.fix-10.patch)
+PSupportedMn == {"addi", "addis", "add", "subf", "addze", "srawi", "rlwinm", "lwz", "stw", "lbz", "cmpwi", "cmplwi",
+                 "or", "ori", "mfspr", "mtspr", "b", "bcctr"}
+PKindOf(p, i) ==
+  LET d == PDecode(WordAt(p, i))  pc == AddrAt(p, i) IN
+  CASE d.mn = "b" /\ d.aa = 0 ->
+         [kind |-> IF d.rc = 1 THEN "call" ELSE "jump",
+          t |-> OffOf(p, Add(32, pc, Sext(26, 32, BvAnd(32, d.w, <<252, 255, 255, 3>>))))]
+    [] d.mn = "bcctr" /\ d.rt = 20 /\ d.rc = 0 -> [kind |-> "ind", t |-> 0]
+    [] d.mn \in PSupportedMn \ {"b", "bcctr"}
+       /\ (d.mn \in {"add", "subf", "addze", "srawi", "rlwinm", "or"} => d.rc = 0 /\ (d.mn \in {"add", "subf", "addze"} => d.oe = 0))
+       /\ (d.mn \in {"mfspr", "mtspr"} => d.rb * 32 + d.ra \in {8, 9}) -> [kind |-> "fall", t |-> 0]
+    [] OTHER -> [kind |-> "other", t |-> 0]
 KindOf(p, i) ==
+  IF ~IsMips(p) THEN PKindOf(p, i) ELSE
   LET d == DecAt(p, i)  pc == AddrAt(p, i) IN
   CASE d.mn \in {"bne", "blez", "bgtz", "bltz", "bgez"} -> [kind |-> "cond", t |-> OffOf(p, RelTarget(d, pc))]
     [] d.mn = "beq" -> [kind |-> IF d.rs = 0 /\ d.rt = 0 THEN "jump" ELSE "cond", t |-> OffOf(p, RelTarget(d, pc))]
@@ -89,17 +110,22 @@ KindOf(p, i) ==
 AProg(p)  == TLCEval([a \in { 4 * i : i \in 0..(NW(p) - 1) } |-> LET k == KindOf(p, a \div 4) IN [len |-> 4, kind |-> k.kind, t |-> k.t]])
 AMan(p)   == { <<4 * p.manual[i][1], 4 * p.manual[i][2]>> : i \in 1..Len(p.manual) }
 ARoots(p) == {4 * p.entry} \cup { m[1] : m \in AMan(p) } \cup { m[2] : m \in AMan(p) }
-AReachOf(p, prog) == TLCEval(DReach(prog, AMan(p), 4, ARoots(p)))
+\* PPC has no delay slot: the same <<instruction, next instruction>> pairs are built from Succs / ReachInstr
+PlainReach(prog, man, roots) ==
+  LET R == ReachInstr(prog, man, roots) \cap DOMAIN prog IN
+  UNION { IF Succs(prog, man, a) = {} THEN {<<a, Exit>>} ELSE { <<a, s>> : s \in Succs(prog, man, a) } : a \in R }
+ReachFrom(p, prog, roots) == IF IsMips(p) THEN DReach(prog, AMan(p), 4, roots) ELSE PlainReach(prog, AMan(p), roots)
+AReachOf(p, prog) == TLCEval(ReachFrom(p, prog, ARoots(p)))
 
 \* the specification only speaks about closed programs of the instruction kinds above
 Closed(p, prog, reach) ==
   /\ \A s \in reach : s[1] \in DOMAIN prog /\ s[2] \in DOMAIN prog \cup {Exit}
   /\ \A a \in DInstr(reach) : prog[a].kind # "other"
-  /\ \A s \in reach : prog[s[1]].kind \in {"jump", "cond", "call", "ind"} /\ s[2] # Exit => prog[s[2]].kind = "fall"   \* no branch in a delay slot
+  /\ IsMips(p) => \A s \in reach : prog[s[1]].kind \in {"jump", "cond", "call", "ind"} /\ s[2] # Exit => prog[s[2]].kind = "fall"   \* no branch in a delay slot
   /\ \A m \in AMan(p) : prog[m[1]].kind = "ind"
   \* manual edges are declared for indirect jumps of the function: a head the entry cannot reach is outside the
   \* intended use (and an unreachable cycle of unguarded edges makes ControlFlowGraph::merge fail - see design notes)
-  /\ (AMan(p) # {} => { m[1] : m \in AMan(p) } \subseteq DInstr(DReach(prog, AMan(p), 4, {4 * p.entry})))
+  /\ (AMan(p) # {} => { m[1] : m \in AMan(p) } \subseteq DInstr(ReachFrom(p, prog, {4 * p.entry})))
 
 \* instruction classes falcon's MIPS lifter is known to support (the classes C02 judges; `not` / `neg` aliases -
 \* nor / sub with $zero - are refused by the lifter and excluded)
@@ -107,7 +133,8 @@ SupportedMn == {"addu", "subu", "and", "or", "xor", "nor", "slt", "sltu", "movz"
                 "srav", "addiu", "andi", "ori", "xori", "lui", "slti", "sltiu", "lw", "sw", "lb", "lbu", "sb", "lh", "lhu", "sh",
                 "mult", "multu", "mfhi", "mflo", "mthi", "mtlo", "mul", "beq", "bne", "blez", "bgtz", "bltz", "bgez", "j", "jal", "jr"}
 Supported(p, reach) ==
-  \A a \in DInstr(reach) : LET d == DecAt(p, a \div 4) IN d.mn \in SupportedMn /\ (d.mn = "nor" => d.rt # 0)
+  IF ~IsMips(p) THEN TRUE      \* Closed already restricts PPC programs to PSupportedMn
+  ELSE \A a \in DInstr(reach) : LET d == DecAt(p, a \div 4) IN d.mn \in SupportedMn /\ (d.mn = "nor" => d.rt # 0)
 
 \* ---- the recovered function as Recover.tla sees it -------------------------------------------
 IsPseudo(a8) == a8[1] % 4 # 0
@@ -127,6 +154,16 @@ Contiguous(f, a) ==
   /\ Cardinality({ o[1] : o \in occ }) <= 1
   /\ \A o1, o2 \in occ : \A k \in o1[2]..o2[2] : <<o1[1], k>> \in occ
 
+\* Words that are the delay slot of a reachable branch AND entered by a jump (direct target, manual tail, root).
+\* The two roles have different successors, which one IL instance cannot express: "exactly one block" and "the
+\* executions coincide" contradict each other for such a word, and the specification accepts one instance per role.
+DualRole(p, prog, reach) ==
+  IF ~IsMips(p) THEN {} ELSE
+  LET instr == DInstr(reach)
+      slots == { a + 4 : a \in { x \in instr : prog[x].kind \in {"jump", "cond", "call", "ind"} } }
+      entered == { prog[a].t : a \in { x \in instr : prog[x].kind \in {"jump", "cond"} } } \cup ARoots(p)
+  IN slots \cap entered
+
 \* the clauses; each returns a sequence of strings (empty = holds)
 StructureDiff(p, prog, reach) ==
   LET f == TLCEval(FunOf(p))
@@ -137,10 +174,10 @@ StructureDiff(p, prog, reach) ==
   \o (IF AddrsOf(f) \subseteq instr THEN <<>> ELSE <<"unreachable-lifted">>)
   \o (IF instr \subseteq AddrsOf(f) THEN <<>> ELSE <<"reachable-missing">>)
   \o (IF \A a \in instr :
-          LET al == p.alone[(a \div 4) + 1]  a8 == Zext(64, AddrAt(p, a \div 4)) IN
-          al[1] < 0 \/ ( /\ CountAddr(p, a8) = al[1]
+          LET al == p.alone[(a \div 4) + 1]  a8 == Zext(64, AddrAt(p, a \div 4))  n == CountAddr(p, a8) IN
+          al[1] < 0 \/ ( /\ (n = al[1] \/ (a \in DualRole(p, prog, reach) /\ n = 2 * al[1]))
                          /\ CountAddr(p, [a8 EXCEPT ![1] = @ + 1]) = al[2]
-                         /\ (al[3] <= 1 => Contiguous(f, a)) )
+                         /\ (al[3] <= 1 /\ n = al[1] => Contiguous(f, a)) )
       THEN <<>> ELSE <<"not-exactly-once">>)
   \o (IF \A a \in instr : NativeSuccs(pairs, a) = DSuccs(reach, a) \ {a} THEN <<>> ELSE <<"successors">>)
 
@@ -156,7 +193,7 @@ StructureDetail(p, prog, reach) ==
 ProgTags(p) ==
   LET prog == AProg(p)  reach == AReachOf(p, prog)  instr == TLCEval(DInstr(reach))
       branches == { a \in instr : prog[a].kind \in {"jump", "cond", "call", "ind"} }
-      slots    == { a + 4 : a \in branches }
+      slots    == IF IsMips(p) THEN { a + 4 : a \in branches } ELSE {}
       targets  == { prog[a].t : a \in { x \in instr : prog[x].kind \in {"jump", "cond"} } } \cup { m[2] : m \in AMan(p) }
   IN (IF targets \cap slots # {} THEN <<"target-is-delay-slot">> ELSE <<>>)
      \o (IF 4 * p.entry \in slots THEN <<"entry-is-delay-slot">> ELSE <<>>)
@@ -189,22 +226,43 @@ Walk(p, m, pcs, k) ==
        ELSE Walk(p, TLCEval([m EXCEPT !.prev = m.st, !.st = r.st, !.lastbr = FALSE, !.pc = m.npc, !.npc = seq4, !.at = k]),
                  pcs, k + 1)
 
+\* PPC: no delay slot, PExec gives the next pc; don't-care components (the SO bit a compare copies) accumulate
+PInitState(e) == [gpr |-> e.gpr, lr |-> e.lr, ctr |-> e.ctr, ca |-> e.ca, cr |-> e.cr, mem |-> e.mem0, win |-> e.win]
+RECURSIVE PWalk(_, _, _, _)
+PWalk(p, m, pcs, k) ==
+  IF m.k # "run" \/ k > Len(pcs) THEN m
+  ELSE IF pcs[k] # Zext(64, m.pc) THEN [m EXCEPT !.k = "diverge", !.at = k]
+  ELSE IF ~InCode(p, m.pc) THEN [m EXCEPT !.k = "unspec", !.why = "control leaves the code"]
+  ELSE LET r == PExec(PDecode(WordAt(p, OffOf(p, m.pc) \div 4)), m.st, m.pc)[1] IN
+       IF r.k # "ok" THEN [m EXCEPT !.k = "unspec", !.why = r.why]
+       ELSE PWalk(p, TLCEval([m EXCEPT !.prev = m.st, !.st = r.st, !.pc = r.npc, !.at = k, !.dc = m.dc \cup r.dc]), pcs, k + 1)
+PMachine0(p, e) == [k |-> "run", st |-> PInitState(e), prev |-> PInitState(e), lastbr |-> FALSE,
+                    pc |-> AddrAt(p, p.entry), npc |-> AddrAt(p, p.entry + 1), at |-> 0, why |-> "", dc |-> {}]
+
 Machine0(p, e) == [k |-> "run", st |-> InitState(e), prev |-> InitState(e), lastbr |-> FALSE,
-                   pc |-> AddrAt(p, p.entry), npc |-> AddrAt(p, p.entry + 1), at |-> 0, why |-> ""]
+                   pc |-> AddrAt(p, p.entry), npc |-> AddrAt(p, p.entry + 1), at |-> 0, why |-> "", dc |-> {}]
 NativePcs(e) == SelectSeq(e.pcs, LAMBDA a : ~IsPseudo(a))
 
 \* components of the final state (as in Trace_C02)
 RegNames == [i \in 0..31 |-> "r" \o ToString(i)]
 C(n, ev, o) == [n |-> n, ew |-> 32, ev |-> ev, ow |-> o.w, ov |-> o.v]
-Comps(e, st) == [i \in 1..31 |-> C(RegNames[i], st.gpr[i + 1], e.post.gpr[i + 1])]
-                \o <<C("hi", st.hi, e.post.hi), C("lo", st.lo, e.post.lo)>>
+CrNames == [i \in 1..32 |-> "cr" \o ToString((i - 1) \div 4) \o (CASE (i - 1) % 4 = 0 -> "lt" [] (i - 1) % 4 = 1 -> "gt"
+                                                                          [] (i - 1) % 4 = 2 -> "eq" [] OTHER -> "so")]
+C1(n, ev, o) == [n |-> n, ew |-> 1, ev |-> ev, ow |-> o.w, ov |-> o.v]
+Comps(e, st) ==
+  IF "hi" \in DOMAIN st
+  THEN [i \in 1..31 |-> C(RegNames[i], st.gpr[i + 1], e.post.gpr[i + 1])]
+       \o <<C("hi", st.hi, e.post.hi), C("lo", st.lo, e.post.lo)>>
+  ELSE [i \in 1..32 |-> C(RegNames[i - 1], st.gpr[i], e.post.gpr[i])]
+       \o <<C("lr", st.lr, e.post.lr), C("ctr", st.ctr, e.post.ctr), C1("ca", <<st.ca>>, e.post.ca)>>
+       \o [i \in 1..32 |-> C1(CrNames[i], <<st.cr[i]>>, e.post.cr[i])]
 PageBase(a)  == <<0, a[2] - (a[2] % 4), a[3], a[4]>>
 PagesOk(e)   == \A i \in 1..Len(e.post.pages) :
                    e.post.pages[i] \in { Zext(64, PageBase(e.win)), Zext(64, PageBase(Add(32, e.win, N32(Len(e.mem0) - 1)))) }
 
 RunDiff(p, e, m) ==
   LET st  == IF m.lastbr THEN m.prev ELSE m.st         \* stopped between a branch and its delay slot: nothing of the unit is visible yet
-      bad == SelectSeq(Comps(e, st), LAMBDA c : c.ew # c.ow \/ c.ev # c.ov) IN
+      bad == SelectSeq(Comps(e, st), LAMBDA c : c.n \notin m.dc /\ (c.ew # c.ow \/ c.ev # c.ov)) IN
   (IF m.k = "diverge" THEN <<"pcs">> ELSE <<>>)
   \o (IF e.out.k \in {"limit", "exit"} THEN
          (IF m.k = "run" /\ e.out.npc # Zext(64, m.pc) THEN <<"npc">> ELSE <<>>)
@@ -218,16 +276,17 @@ RunDiff(p, e, m) ==
 
 RunDetail(p, e, m) ==
   LET st  == IF m.lastbr THEN m.prev ELSE m.st
-      bad == SelectSeq(Comps(e, st), LAMBDA c : c.ew # c.ow \/ c.ev # c.ov)
+      bad == SelectSeq(Comps(e, st), LAMBDA c : c.n \notin m.dc /\ (c.ew # c.ow \/ c.ev # c.ov))
       pw(k) == IF k >= 1 /\ k <= Len(NativePcs(e)) THEN AOff(p, NativePcs(e)[k]) ELSE 2000000
       la  == IF m.k = "diverge" THEN m.at - 1 ELSE m.at            \* index of the last address both sides agree on
       i   == IF pw(la) % 4 = 0 /\ pw(la) < 4 * NW(p) THEN pw(la) \div 4 ELSE -1
       \* that instruction is a delay-slot word that was entered by a jump (not behind its branch): the state
       \* class of the shared delay-slot instance
       slotjump == /\ i >= 1 /\ MIsBranch(DecAt(p, i - 1).mn) /\ pw(la - 1) # 4 * (i - 1)
-  IN [at |-> m.at, expected_pc |-> m.pc, last_word |-> i, last_mn |-> IF i >= 0 THEN DecAt(p, i).mn ELSE "",
-      last_is_slot |-> (i >= 1 /\ MIsBranch(DecAt(p, i - 1).mn)),
-      entered_slot_by_jump |-> slotjump,
+  IN [at |-> m.at, expected_pc |-> m.pc, last_word |-> i,
+      last_mn |-> IF i < 0 THEN "" ELSE IF IsMips(p) THEN DecAt(p, i).mn ELSE PDecode(WordAt(p, i)).mn,
+      last_is_slot |-> (IsMips(p) /\ i >= 1 /\ MIsBranch(DecAt(p, i - 1).mn)),
+      entered_slot_by_jump |-> (IsMips(p) /\ slotjump),
       regs |-> [k \in 1..Len(bad) |-> [n |-> bad[k].n, v |-> bad[k].ev]]]
 
 \* ---- verdicts ------------------------------------------------------------------------------
@@ -252,8 +311,9 @@ BeginVerdict(e) ==
                    [kind |-> "structure", arch |-> e.arch, diff |-> d, tags |-> ProgTags(e), detail |-> StructureDetail(e, prog, reach)])
 
 RunVerdict(p, e) ==
-  IF ~RunShape(e) THEN V("reject", "run:malformed", "malformed event", <<>>)
-  ELSE LET m == TLCEval(Walk(p, Machine0(p, e), NativePcs(e), 1)) IN
+  IF ~RunShape(p, e) THEN V("reject", "run:malformed", "malformed event", <<>>)
+  ELSE LET m == TLCEval(IF IsMips(p) THEN Walk(p, Machine0(p, e), NativePcs(e), 1)
+                                      ELSE PWalk(p, PMachine0(p, e), NativePcs(e), 1)) IN
        IF m.k = "unspec" THEN V("unspec", "run:unspec", m.why, <<>>)
        ELSE LET d == RunDiff(p, e, m) IN
             IF d = <<>> THEN V("ok", "run:ok:" \o e.out.k, "", <<>>)
